@@ -176,6 +176,10 @@ func (h *H) runTransparency() {
 		h.pingRound(A, B, C, i, mode)
 		h.pipeRound(A, B, C, i, mode)
 	}
+	// name reuse on the target system: respawn.go
+	if !h.abort {
+		h.respawnRounds(A, B, C)
+	}
 	// last (a forwarding loop, if there is one, keeps the target system busy until it is stopped): alias.go
 	if !h.abort {
 		h.aliasRounds(A, B, C)
